@@ -7,7 +7,7 @@ from ..prog import Line, Lx, SP
 
 RULE = ("header base names over [a-z0-9_.] (dots and underscores anywhere) x generated conforming header bodies x guard variants G0..G8 of "
         "DESIGN §4.14; the expected symbol is computed by the harness (upper-case, '.'->'_'); oracle: G0 no HEADER_PROT_* diagnostic; G1..G6 the "
-        "listed code present; G7 (no guard at all) some HEADER_PROT_*; G8 (every variant under a .c name) none; non-trivial = every "
+        "listed code present (G5/G6: the stray declaration up to 40 comment lines away from the guard); G7 (no guard at all) some HEADER_PROT_*; G8 (every variant under a .c name) none; non-trivial = every "
         "(name, body, variant) triple, distinct by SHA-1 of name+text")
 
 EXPECT = {"G1": "HEADER_PROT_NAME", "G2": "HEADER_PROT_UPPER", "G3a": "HEADER_PROT_NODEF", "G3b": "HEADER_PROT_NODEF", "G4": "HEADER_PROT_MULT",
@@ -82,11 +82,14 @@ def variant(p, v, salt):
                     Line([Lx("#", "hash"), Lx("endif", "pp")], "endif", 0, -1)]
         return q
     decl = Line([Lx("int", "kw"), Lx("\t", "tab"), Lx("zz_outside", "id"), Lx("(", "par"), Lx("void", "kw"), Lx(")", "par"), Lx(";", "semi")], "proto", 0, -1)
+    # the stray declaration may be far from the guard: a run of comment lines (0, 1, 2, 5, 9, 16 or 40 of them) in between
+    nfill = [0, 0, 0, 1, 2, 5, 9, 16, 40][(salt // 7) % 9]
+    fill = [Line([Lx("// filler %d" % k if (salt + k) % 3 else "/* filler %d */" % k, "cmt")], "comment", 0, -1) for k in range(nfill)]
     if v == "G5":
-        q.lines[a:a] = [decl, Line([], "blank", 0, -1)]
+        q.lines[a:a] = [decl, Line([], "blank", 0, -1)] + fill
         return q
     if v == "G6":
-        q.lines += [Line([], "blank", 0, -1), decl]
+        q.lines += [Line([], "blank", 0, -1)] + fill + [decl]
         return q
     raise KeyError(v)
 
